@@ -489,5 +489,624 @@ theorem ddw0_fault_after_conforming_prefix (cfg : CheckCfg) (hits : cfg.itsCheck
       have := hsub _ (ddw0_needs_page_gt_0 cfg hrn _ w hcls (by simpa [startCdp] using hpage) sA mA hA)
       simpa [mkErr, first_word_pos] using this
 
+/-! ### faults at any depth of a payload -/
+
+/-- the classification of a word depends only on its identifier and the two flag bits the state
+    machine looks at -/
+theorem same_shape_same_class (st : FsmSt) (w o : Bytes) (hid : wordId w = wordId o)
+    (hnd : tdhNoData w = tdhNoData o) (hpd : tdtPacketDone w = tdtPacketDone o) :
+    fsmAdvance st w = fsmAdvance st o := by
+  simp [fsmAdvance, hid, hnd, hpd]
+
+/-- splitting a word run at a word -/
+theorem checkWords_split (cfg : CheckCfg) (a : List Bytes) (w : Bytes) (b : List Bytes) (s sf : CdpSt) (ms : List Msg)
+    (h : checkWords cfg s (a ++ w :: b) = .ok (sf, ms)) :
+    ∃ sK mK sW mW mR, checkWords cfg s a = .ok (sK, mK) ∧ checkWord cfg sK w = .ok (sW, mW) ∧
+      checkWords cfg sW b = .ok (sf, mR) ∧ ms = mK ++ (mW ++ mR) := by
+  rw [checkWords_append] at h
+  cases hA : checkWords cfg s a with
+  | error e => simp [hA] at h
+  | ok rA =>
+    obtain ⟨sK, mK⟩ := rA
+    simp only [hA, checkWords] at h
+    cases hW : checkWord cfg sK w with
+    | error e => simp [hW] at h
+    | ok rW =>
+      obtain ⟨sW, mW⟩ := rW
+      simp only [hW] at h
+      cases hR : checkWords cfg sW b with
+      | error e => simp [hR] at h
+      | ok rR =>
+        obtain ⟨sR, mR⟩ := rR
+        simp only [hR, Except.ok.injEq, Prod.mk.injEq] at h
+        obtain ⟨rfl, rfl⟩ := h
+        exact ⟨sK, mK, sW, mW, mR, rfl, hW, hR, rfl⟩
+
+/-- the tracker after a run of words -/
+theorem checkWords_tracker (cfg : CheckCfg) (ws : List Bytes) : ∀ (s s' : CdpSt) (ms : List Msg),
+    checkWords cfg s ws = .ok (s', ms) →
+    s'.payloadPos = s.payloadPos ∧ s'.slot = s.slot ∧ s'.wordCount = s.wordCount + ws.length := by
+  induction ws with
+  | nil =>
+    intro s s' ms h
+    simp only [checkWords, Except.ok.injEq, Prod.mk.injEq] at h
+    obtain ⟨rfl, _⟩ := h
+    simp
+  | cons w ws ih =>
+    intro s s' ms h
+    simp only [checkWords] at h
+    cases h1 : checkWord cfg s w with
+    | error e => simp [h1] at h
+    | ok r1 =>
+      obtain ⟨s1, m1⟩ := r1
+      simp only [h1] at h
+      cases h2 : checkWords cfg s1 ws with
+      | error e => simp [h2] at h
+      | ok r2 =>
+        obtain ⟨s2, m2⟩ := r2
+        simp only [h2, Except.ok.injEq, Prod.mk.injEq] at h
+        obtain ⟨rfl, _⟩ := h
+        obtain ⟨_, _, e1, e2, e3⟩ := C07.checkWord_ok (fun _ => True) cfg s w trivial (fun _ _ => trivial) s1 m1 h1
+        obtain ⟨f1, f2, f3⟩ := ih s1 s2 m2 h2
+        refine ⟨by rw [f1, e1], by rw [f2, e2], by rw [f3, e3]; simp; omega⟩
+
+
+/-- what a word that is processed without any message must be, by the class the state machine
+    gave it (contrapositive of the per-rule detection lemmas and of [C09] `ambiguity_reported`) -/
+theorem quiet_class (cfg : CheckCfg) (s : CdpSt) (o : Bytes) (hlen : o.length = 10) (s' : CdpSt)
+    (h : checkWord cfg s o = .ok (s', [])) :
+    match (fsmAdvance s.fsm o).2 with
+    | .ihw | .ihwCont => ihwSane o = true
+    | .tdh | .tdhCont | .tdhAfterPacketDone => tdhSane o = true
+    | .tdt => tdtSane o = true
+    | .ddw0 => ddw0Sane o = true
+    | .cdw | .dataWord => True
+    | _ => False := by
+  have hI : ((fsmAdvance s.fsm o).2 = .ihw ∨ (fsmAdvance s.fsm o).2 = .ihwCont) → ihwSane o = true := by
+    intro hc
+    cases hb : ihwSane o with
+    | true => rfl
+    | false =>
+      have := ihw_fault_detected cfg s o hlen hc (fun hs => by rw [(C11.ihw_sane_iff o hlen).mpr hs] at hb; cases hb) s' [] h
+      simp at this
+  have hT : ((fsmAdvance s.fsm o).2 = .tdh ∨ (fsmAdvance s.fsm o).2 = .tdhCont ∨ (fsmAdvance s.fsm o).2 = .tdhAfterPacketDone) →
+      tdhSane o = true := by
+    intro hc
+    cases hb : tdhSane o with
+    | true => rfl
+    | false =>
+      have := tdh_fault_detected cfg s o hlen hc (fun hs => by rw [(C11.tdh_sane_iff o hlen).mpr hs] at hb; cases hb) s' [] h
+      simp at this
+  have hD : (fsmAdvance s.fsm o).2 = .tdt → tdtSane o = true := by
+    intro hc
+    cases hb : tdtSane o with
+    | true => rfl
+    | false =>
+      have := tdt_fault_detected cfg s o hlen hc (fun hs => by rw [(C11.tdt_sane_iff o hlen).mpr hs] at hb; cases hb) s' [] h
+      simp at this
+  have hW : (fsmAdvance s.fsm o).2 = .ddw0 → ddw0Sane o = true := by
+    intro hc
+    cases hb : ddw0Sane o with
+    | true => rfl
+    | false =>
+      have := ddw0_fault_detected cfg s o hlen hc (fun hs => by rw [(C11.ddw0_sane_iff o hlen).mpr hs] at hb; cases hb) s' [] h
+      simp at this
+  have hE : C09.classKind (fsmAdvance s.fsm o).2 = none → False := by
+    intro hc
+    have := C09.ambiguity_reported cfg s o hc
+    rw [h] at this
+    obtain ⟨f, hf, _⟩ := this
+    simp at hf
+  cases hcls : (fsmAdvance s.fsm o).2 <;> simp only [] <;> first
+    | exact hI (by simp [hcls]) | exact hT (by simp [hcls]) | exact hD hcls | exact hW hcls
+    | trivial | exact hE (by simp [hcls, C09.classKind])
+
+
+theorem tdtSane_id (w : Bytes) (h : tdtSane w = true) : wordId w = ID_TDT := by
+  simp only [tdtSane, Bool.and_eq_true, beq_iff_eq] at h; exact h.1
+theorem ddw0Sane_id (w : Bytes) (h : ddw0Sane w = true) : wordId w = ID_DDW0 := by
+  simp only [ddw0Sane, Bool.and_eq_true, beq_iff_eq] at h; exact h.1.1
+
+theorem class_data_id (st : FsmSt) (id : Nat) (nd pd : Bool) (h : (fsmStep st id nd pd).2 = .dataWord) :
+    isFsmDataId id = true := by
+  cases st <;> simp only [fsmStep] at h <;> (repeat' split at h) <;> simp_all
+theorem class_cdw_id (st : FsmSt) (id : Nat) (nd pd : Bool) (h : (fsmStep st id nd pd).2 = .cdw) :
+    id = ID_CDW := by
+  cases st <;> simp only [fsmStep] at h <;> (repeat' split at h) <;> simp_all
+
+/-- the kind of a status-word identifier -/
+inductive StatusKind | ihw | tdh | tdt | ddw0
+  deriving DecidableEq, Repr
+
+def StatusKind.id : StatusKind → Nat
+  | .ihw => ID_IHW | .tdh => ID_TDH | .tdt => ID_TDT | .ddw0 => ID_DDW0
+def StatusKind.code : StatusKind → String
+  | .ihw => "E30" | .tdh => "E40" | .tdt => "E50" | .ddw0 => "E60"
+/-- the documented bit-level rule of the word type (the right-hand sides of [C11]) -/
+def StatusKind.Spec : StatusKind → Nat → Prop
+  | .ihw => C11.IhwSpec | .tdh => C11.TdhSpec | .tdt => C11.TdtSpec | .ddw0 => C11.Ddw0Spec
+def StatusKind.classes : StatusKind → List WordClass
+  | .ihw => [.ihw, .ihwCont] | .tdh => [.tdh, .tdhCont, .tdhAfterPacketDone] | .tdt => [.tdt] | .ddw0 => [.ddw0]
+
+/-- a word carrying a status-word identifier that is processed without any message was taken as
+    that status word -/
+theorem quiet_status_class (cfg : CheckCfg) (s : CdpSt) (o : Bytes) (hlen : o.length = 10) (s' : CdpSt)
+    (h : checkWord cfg s o = .ok (s', [])) (k : StatusKind) (hid : wordId o = k.id) :
+    (fsmAdvance s.fsm o).2 ∈ k.classes := by
+  have hq := quiet_class cfg s o hlen s' h
+  have hdata : (fsmAdvance s.fsm o).2 = .dataWord → isFsmDataId (wordId o) = true := class_data_id _ _ _ _
+  have hcdw : (fsmAdvance s.fsm o).2 = .cdw → wordId o = ID_CDW := class_cdw_id _ _ _ _
+  cases hcls : (fsmAdvance s.fsm o).2 <;> rw [hcls] at hq <;> simp only [] at hq
+  all_goals first
+    | (have := ihwSane_id o hq; cases k <;> simp_all [StatusKind.id, StatusKind.classes, ID_IHW, ID_TDH, ID_TDT, ID_DDW0]; done)
+    | (have := tdhSane_id o hq; cases k <;> simp_all [StatusKind.id, StatusKind.classes, ID_IHW, ID_TDH, ID_TDT, ID_DDW0]; done)
+    | (have := tdtSane_id o hq; cases k <;> simp_all [StatusKind.id, StatusKind.classes, ID_IHW, ID_TDH, ID_TDT, ID_DDW0]; done)
+    | (have := ddw0Sane_id o hq; cases k <;> simp_all [StatusKind.id, StatusKind.classes, ID_IHW, ID_TDH, ID_TDT, ID_DDW0]; done)
+    | (have := hdata hcls; cases k <;> simp_all [StatusKind.id, isFsmDataId, inRange, ID_IHW, ID_TDH, ID_TDT, ID_DDW0]; done)
+    | (have := hcdw hcls; cases k <;> simp_all [StatusKind.id, ID_CDW, ID_IHW, ID_TDH, ID_TDT, ID_DDW0]; done)
+    | exact hq.elim
+
+
+/-- the four per-type detection lemmas as one: in *every* validator state, a word that the state
+    machine takes as status word `k` and that violates `k`'s documented rule yields `k`'s sanity
+    code at the word -/
+theorem status_fault_detected (k : StatusKind) (cfg : CheckCfg) (s : CdpSt) (w : Bytes) (hlen : w.length = 10)
+    (hcls : (fsmAdvance s.fsm w).2 ∈ k.classes) (hbad : ¬ k.Spec (leNat w))
+    (s' : CdpSt) (ms : List Msg) (h : checkWord cfg s w = .ok (s', ms)) :
+    mkErr (stepped s w) k.code w ∈ ms := by
+  cases k <;> simp only [StatusKind.classes, List.mem_cons, List.not_mem_nil, or_false] at hcls
+  · exact ihw_fault_detected cfg s w hlen hcls hbad s' ms h
+  · exact tdh_fault_detected cfg s w hlen hcls hbad s' ms h
+  · exact tdt_fault_detected cfg s w hlen hcls hbad s' ms h
+  · exact ddw0_fault_detected cfg s w hlen hcls hbad s' ms h
+
+/-- what the link validator does with the payload words of a packet (non-stave ITS modes) -/
+theorem linkStep_words (cfg : CheckCfg) (hits : cfg.itsChecks = true) (hst : cfg.stave = false)
+    (s : LinkSt) (p : Packet) (ws : List Bytes)
+    (hne : p.payload.isEmpty = false) (hcut : cutPayload p.payload = some ws)
+    (sf : LinkSt) (ms : List Msg) (h : linkStep cfg s p = .ok (sf, ms)) :
+    ∃ sB mB, checkWords cfg (startCdp s.cdp p.offset p.rdh) ws = .ok (sB, mB) ∧ (∀ m ∈ mB, m ∈ ms) := by
+  unfold linkStep at h
+  simp only [hits, hne, Bool.not_false, Bool.and_self, ↓reduceIte] at h
+  have hs0 : setCurrentRdh cfg s.cdp p.offset p.rdh = .ok (startCdp s.cdp p.offset p.rdh) := by
+    unfold setCurrentRdh startCdp; simp [hst]
+  unfold payloadChecks at h
+  simp only [hs0, hcut] at h
+  cases hB : checkWords cfg (startCdp s.cdp p.offset p.rdh) ws with
+  | error e => simp [hB] at h
+  | ok rB =>
+    obtain ⟨sB, mB⟩ := rB
+    simp only [hB, Except.ok.injEq, Prod.mk.injEq] at h
+    obtain ⟨_, rfl⟩ := h
+    exact ⟨sB, mB, rfl, fun m hm => by simp [hm]⟩
+
+theorem conformingLinkTo_append (cfg : CheckCfg) (id0 : Nat) (xs ys : List PktSpec) :
+    ∀ (done : List Rdh) (st : LSt) (done' : List Rdh) (st' : LSt),
+      ConformingLinkTo cfg id0 done st (xs ++ ys) done' st' →
+      ∃ d1 s1, ConformingLinkTo cfg id0 done st xs d1 s1 ∧ ConformingLinkTo cfg id0 d1 s1 ys done' st' := by
+  induction xs with
+  | nil => intro done st done' st' h; exact ⟨done, st, ⟨rfl, rfl⟩, h⟩
+  | cons x xs ih =>
+    intro done st done' st' h
+    obtain ⟨h1, h2, h3, h4, h5, h6, h7, st1, h8, h9⟩ := h
+    obtain ⟨d1, s1, ha, hb⟩ := ih _ _ _ _ h9
+    exact ⟨d1, s1, ⟨h1, h2, h3, h4, h5, h6, h7, st1, h8, ha⟩, hb⟩
+
+/-- **a status word at any depth of a payload.**  Take any conforming link prefix `xs` and a
+    packet `x0` that continues it conformingly; let `o` be the word at index `pre.length` of its
+    payload. Replace the packet by one with the same header whose payload has the same words before
+    that index and there a word `w` with the same identifier and the same two state-machine flag
+    bits (TDH `no_data`, TDT `packet_done`) as `o` — whatever follows. If `o` is an IHW / TDH / TDT /
+    DDW0 and `w` violates that word type's documented rule, the run reports the type's sanity code
+    [E30]/[E40]/[E50]/[E60] at exactly the word's offset `packet + 64 + index × slot`, quoting `w`.
+    No assumption on how deep in the page the word sits. -/
+theorem status_fault_at_any_depth (cfg : CheckCfg) (hits : cfg.itsChecks = true) (hst : cfg.stave = false)
+    (htp : cfg.triggerPeriod = none) (hver : cfg.customRdhVersion = none)
+    (id0 : Nat) (xs : List PktSpec) (x0 : PktSpec) (done' : List Rdh) (st' : LSt)
+    (hc : ConformingLinkTo cfg id0 [] {} (xs ++ [x0]) done' st')
+    (pre : List Bytes) (o : Bytes) (post : List Bytes) (hw0 : x0.pl.words = pre ++ o :: post)
+    (p : Packet) (hoff : p.offset = x0.offset) (hrdh : p.rdh = decodeRdh x0.hdr)
+    (w : Bytes) (post' : List Bytes)
+    (hne : p.payload.isEmpty = false) (hcut : cutPayload p.payload = some (pre ++ w :: post')) (hlen : w.length = 10)
+    (hid : wordId w = wordId o) (hnd : tdhNoData w = tdhNoData o) (hpd : tdtPacketDone w = tdtPacketDone o)
+    (k : StatusKind) (hk : wordId o = k.id) (hbad : ¬ k.Spec (leNat w))
+    (sf : LinkSt) (ms : List Msg)
+    (h : linkRun cfg (LinkSt.init cfg) (xs.map PktSpec.packet ++ [p]) = .ok (sf, ms)) :
+    Msg.error { offset := p.offset + 64 + pre.length * C07.slotOf p.rdh, code := k.code, word := some w } ∈ ms := by
+  obtain ⟨d1, g1, hcx, hc0⟩ := conformingLinkTo_append cfg id0 xs [x0] [] {} done' st' hc
+  obtain ⟨s1, hrun, hinv, hrel⟩ := conforming_its_run_to cfg hits hst htp id0 xs [] (LinkSt.init cfg) {} d1 g1
+    ⟨by simp [LinkSt.init, hver], fun _ => C10.init_inv⟩ ⟨Or.inl rfl, fun _ => rfl⟩ hcx
+  obtain ⟨h1, h2, h3, h4, h5, h6, _, g2, h8, _⟩ := hc0
+  -- the unaltered packet is processed without any message
+  obtain ⟨s2, hstep0, _, _⟩ := conforming_its_step cfg hits hst htp id0 d1 s1 g1 g2 hinv hrel x0 h1 h2 h3 h4 h5 h6 h8
+  have hwl := payload_words cfg.running _ g1 g2 x0.pl h8
+  have hcut0 : cutPayload x0.packet.payload = some (pre ++ o :: post) := by
+    have := cut_payload cfg.running _ g1 g2 x0.pl h8 x0.fmt0 x0.pad h6
+    rw [hw0] at this
+    simpa [PktSpec.packet, PktSpec.payloadBytes, hw0] using this
+  have holen : o.length = 10 := (hwl o (by simp [hw0])).1
+  have hne0 : x0.packet.payload.isEmpty = false := by
+    cases hpre : pre with
+    | nil => exact enc_nonempty x0 o post (by simp [hw0, hpre]) holen
+    | cons a as => exact enc_nonempty x0 a (as ++ o :: post) (by simp [hw0, hpre]) (hwl a (by simp [hw0, hpre])).1
+  obtain ⟨sB, mB, hB, hsubB⟩ := linkStep_words cfg hits hst s1 x0.packet _ hne0 hcut0 s2 [] hstep0
+  have hmB : mB = [] := by
+    cases mB with
+    | nil => rfl
+    | cons m _ => exact absurd (hsubB m (by simp)) (by simp)
+  subst hmB
+  obtain ⟨sK, mK, sW, mW, mR, hK, hO, _, hnil⟩ := checkWords_split cfg pre o post _ sB [] hB
+  obtain ⟨hmK, hmWR⟩ := List.append_eq_nil_iff.mp hnil.symm
+  obtain ⟨hmW, _⟩ := List.append_eq_nil_iff.mp hmWR
+  subst hmK; subst hmW
+  -- the altered packet
+  rw [linkRun_snoc cfg _ p _ s1 [] hrun] at h
+  cases hstep : linkStep cfg s1 p with
+  | error e => simp [hstep] at h
+  | ok r2 =>
+    obtain ⟨s2', m2⟩ := r2
+    simp only [hstep, List.nil_append, Except.ok.injEq, Prod.mk.injEq] at h
+    obtain ⟨_, rfl⟩ := h
+    obtain ⟨sB', mB', hB', hsub⟩ := linkStep_words cfg hits hst s1 p _ hne hcut s2' m2 hstep
+    obtain ⟨sK', mK', sW', mW', mR', hK', hW', _, hms⟩ := checkWords_split cfg pre w post' _ sB' mB' hB'
+    have hstart : startCdp s1.cdp p.offset p.rdh = startCdp s1.cdp x0.packet.offset x0.packet.rdh := by
+      simp [PktSpec.packet, hoff, hrdh]
+    rw [hstart, hK] at hK'
+    simp only [Except.ok.injEq, Prod.mk.injEq] at hK'
+    obtain ⟨rfl, _⟩ := hK'
+    -- same class as the original word, which was taken as status word `k`
+    have hcls := quiet_status_class cfg sK o holen sW hO k hk
+    rw [← same_shape_same_class sK.fsm w o hid hnd hpd] at hcls
+    have hmem := status_fault_detected k cfg sK w hlen hcls hbad sW' mW' hW'
+    have hin : mkErr (stepped sK w) k.code w ∈ m2 := hsub _ (by rw [hms]; simp [hmem])
+    obtain ⟨t1, t2, t3⟩ := checkWords_tracker cfg pre _ sK [] hK
+    have hpos : (stepped sK w).wordPos = p.offset + 64 + pre.length * C07.slotOf p.rdh := by
+      simp only [stepped, CdpSt.wordPos, t1, t2, t3, startCdp, C07.slotOf, PktSpec.packet, hoff, hrdh]
+      simp
+    simpa [mkErr, hpos] using hin
+
+
+theorem class_tdt_id (st : FsmSt) (id : Nat) (nd pd : Bool) (h : (fsmStep st id nd pd).2 = .tdt) :
+    id = ID_TDT := by
+  cases st <;> simp only [fsmStep] at h <;> (repeat' split at h) <;> simp_all
+theorem class_ddw0_id (st : FsmSt) (id : Nat) (nd pd : Bool) (h : (fsmStep st id nd pd).2 = .ddw0) :
+    id = ID_DDW0 := by
+  cases st <;> simp only [fsmStep] at h <;> (repeat' split at h) <;> simp_all
+
+/-- an identifier that belongs to no ITS word type -/
+def UnknownId (id : Nat) : Prop :=
+  id ≠ ID_IHW ∧ id ≠ ID_TDH ∧ id ≠ ID_TDT ∧ id ≠ ID_DDW0 ∧ id ≠ ID_CDW ∧ isFsmDataId id = false
+
+/-- in *every* validator state a word whose identifier belongs to no word type is reported at the
+    word itself: as the expected word's sanity error where the state machine has a single successor
+    ([E30], [E40]), as an unrecognised-ID error in the choice and data states ([E990]/[E991]/[E992]) -/
+theorem stepped_pos (s : CdpSt) (w : Bytes) : (stepped s w).wordPos = s.payloadPos + s.wordCount * s.slot := by
+  simp [stepped, CdpSt.wordPos]
+
+theorem unknown_id_never_silent (cfg : CheckCfg) (s : CdpSt) (w : Bytes) (hlen : w.length = 10)
+    (hunk : UnknownId (wordId w)) (s' : CdpSt) (ms : List Msg) (h : checkWord cfg s w = .ok (s', ms)) :
+    ∃ f, Msg.error f ∈ ms ∧ f.offset = s.payloadPos + s.wordCount * s.slot ∧ f.word = some w ∧
+      f.code ∈ ["E30", "E40", "E990", "E991", "E992"] := by
+  obtain ⟨u1, u2, u3, u4, u5, u6⟩ := hunk
+  have mk : ∀ code, code ∈ ["E30", "E40", "E990", "E991", "E992"] → mkErr (stepped s w) code w ∈ ms →
+      ∃ f, Msg.error f ∈ ms ∧ f.offset = s.payloadPos + s.wordCount * s.slot ∧ f.word = some w ∧
+        f.code ∈ ["E30", "E40", "E990", "E991", "E992"] :=
+    fun code hc hm => ⟨_, hm, stepped_pos s w, rfl, hc⟩
+  cases hcls : (fsmAdvance s.fsm w).2
+  case ihw =>
+    refine mk "E30" (by simp) (ihw_fault_detected cfg s w hlen (Or.inl hcls) ?_ s' ms h)
+    intro hs; exact u1 (ihwSane_id w ((C11.ihw_sane_iff w hlen).mpr hs))
+  case ihwCont =>
+    refine mk "E30" (by simp) (ihw_fault_detected cfg s w hlen (Or.inr hcls) ?_ s' ms h)
+    intro hs; exact u1 (ihwSane_id w ((C11.ihw_sane_iff w hlen).mpr hs))
+  case tdh =>
+    refine mk "E40" (by simp) (tdh_fault_detected cfg s w hlen (Or.inl hcls) ?_ s' ms h)
+    intro hs; exact u2 (tdhSane_id w ((C11.tdh_sane_iff w hlen).mpr hs))
+  case tdhCont =>
+    refine mk "E40" (by simp) (tdh_fault_detected cfg s w hlen (Or.inr (Or.inl hcls)) ?_ s' ms h)
+    intro hs; exact u2 (tdhSane_id w ((C11.tdh_sane_iff w hlen).mpr hs))
+  case tdhAfterPacketDone =>
+    refine mk "E40" (by simp) (tdh_fault_detected cfg s w hlen (Or.inr (Or.inr hcls)) ?_ s' ms h)
+    intro hs; exact u2 (tdhSane_id w ((C11.tdh_sane_iff w hlen).mpr hs))
+  case tdt => exact absurd (class_tdt_id _ _ _ _ hcls) u3
+  case ddw0 => exact absurd (class_ddw0_id _ _ _ _ hcls) u4
+  case cdw => exact absurd (class_cdw_id _ _ _ _ hcls) u5
+  case dataWord => have := class_data_id _ _ _ _ hcls; rw [u6] at this; cases this
+  all_goals
+    have hamb := C09.ambiguity_reported cfg s w (by simp [hcls, C09.classKind])
+    rw [h] at hamb
+    obtain ⟨f, hf, hoff, hword, hcode⟩ := hamb
+    exact ⟨f, hf, hoff, hword, by rcases hcode with hc | hc | hc <;> simp [hc]⟩
+
+/-- **an unknown identifier anywhere.**  For *any* link history `ps` (conforming or not) and any
+    packet whose payload is cut into `pre ++ w :: post`: if `w`'s identifier belongs to no word type,
+    the run reports an error quoting `w` at exactly `packet + 64 + pre.length × slot` — never silently
+    accepted, whatever the state the words before it left the validator in -/
+theorem unknown_id_reported_anywhere (cfg : CheckCfg) (hits : cfg.itsChecks = true) (hst : cfg.stave = false)
+    (s0 : LinkSt) (ps : List Packet) (p : Packet) (pre : List Bytes) (w : Bytes) (post : List Bytes)
+    (hne : p.payload.isEmpty = false) (hcut : cutPayload p.payload = some (pre ++ w :: post)) (hlen : w.length = 10)
+    (hunk : UnknownId (wordId w)) (sf : LinkSt) (ms : List Msg)
+    (h : linkRun cfg s0 (ps ++ [p]) = .ok (sf, ms)) :
+    ∃ f, Msg.error f ∈ ms ∧ f.offset = p.offset + 64 + pre.length * C07.slotOf p.rdh ∧ f.word = some w ∧
+      f.code ∈ ["E30", "E40", "E990", "E991", "E992"] := by
+  rw [linkRun_append] at h
+  cases hps : linkRun cfg s0 ps with
+  | error e => simp [hps] at h
+  | ok r1 =>
+    obtain ⟨s1, m1⟩ := r1
+    simp only [hps, linkRun] at h
+    cases hstep : linkStep cfg s1 p with
+    | error e => simp [hstep] at h
+    | ok r2 =>
+      obtain ⟨s2, m2⟩ := r2
+      simp only [hstep, List.append_nil, Except.ok.injEq, Prod.mk.injEq] at h
+      obtain ⟨_, rfl⟩ := h
+      obtain ⟨sB, mB, hB, hsub⟩ := linkStep_words cfg hits hst s1 p _ hne hcut s2 m2 hstep
+      obtain ⟨sK, mK, sW, mW, mR, hK, hW, _, hms⟩ := checkWords_split cfg pre w post _ sB mB hB
+      obtain ⟨f, hf, hoff, hword, hcode⟩ := unknown_id_never_silent cfg sK w hlen hunk sW mW hW
+      obtain ⟨t1, t2, t3⟩ := checkWords_tracker cfg pre _ sK mK hK
+      refine ⟨f, ?_, ?_, hword, hcode⟩
+      · exact List.mem_append_right _ (hsub _ (by rw [hms]; simp [hf]))
+      · rw [hoff, t1, t2, t3]; simp [startCdp, C07.slotOf]
+
+
+/-- only a word taken as IHW changes the stored IHW -/
+theorem checkWord_ihw (cfg : CheckCfg) (s : CdpSt) (w : Bytes) (s' : CdpSt) (ms : List Msg)
+    (h : checkWord cfg s w = .ok (s', ms)) :
+    s'.ihw = if (fsmAdvance s.fsm w).2 = .ihw ∨ (fsmAdvance s.fsm w).2 = .ihwCont then some w else s.ihw := by
+  rcases hadv : fsmAdvance s.fsm w with ⟨st', cls⟩
+  have hpd : ∀ (t t' : CdpSt) (m : List Msg), preData cfg t w = .ok (t', m) → t'.ihw = t.ihw := by
+    intro t t' m hp
+    unfold preData at hp
+    simp only at hp
+    repeat' split at hp
+    all_goals first
+      | cases hp; done
+      | (simp only [Except.ok.injEq, Prod.mk.injEq] at hp; obtain ⟨rfl, _⟩ := hp; rfl)
+  have hpt : ∀ t : CdpSt, (preTdh cfg t w).1.ihw = t.ihw := by
+    intro t; unfold preTdh; simp only; split <;> rfl
+  have hpf : ∀ (t t' : CdpSt) (m : List Msg), processFrame cfg t = .ok (t', m) → t'.ihw = t.ihw := by
+    intro t t' m hp
+    unfold processFrame at hp
+    simp only at hp
+    repeat' split at hp
+    all_goals first
+      | cases hp; done
+      | (simp only [Except.ok.injEq, Prod.mk.injEq] at hp; obtain ⟨rfl, _⟩ := hp; rfl)
+  cases cls <;> simp only [checkWord, hadv] at h <;> simp only [reduceCtorEq, or_self, or_false, or_true, ↓reduceIte]
+  case ihw => simp only [preIhw, Except.ok.injEq, Prod.mk.injEq] at h; obtain ⟨rfl, _⟩ := h; rfl
+  case ihwCont => simp only [preIhw, Except.ok.injEq, Prod.mk.injEq] at h; obtain ⟨rfl, _⟩ := h; rfl
+  case tdh => simp only [Except.ok.injEq, Prod.mk.injEq] at h; obtain ⟨rfl, _⟩ := h; have := hpt { s with wordCount := s.wordCount + 1, fsm := st' }; exact this
+  case tdhCont => simp only [Except.ok.injEq, Prod.mk.injEq] at h; obtain ⟨rfl, _⟩ := h; have := hpt { s with wordCount := s.wordCount + 1, fsm := st' }; exact this
+  case tdhAfterPacketDone => simp only [Except.ok.injEq, Prod.mk.injEq] at h; obtain ⟨rfl, _⟩ := h; have := hpt { s with wordCount := s.wordCount + 1, fsm := st' }; exact this
+  case errTdhOrDdw0 => simp only [Except.ok.injEq, Prod.mk.injEq] at h; obtain ⟨rfl, _⟩ := h; have := hpt { s with wordCount := s.wordCount + 1, fsm := st' }; exact this
+  case cdw => have := hpd _ _ _ h; exact this
+  case dataWord => have := hpd _ _ _ h; exact this
+  case ddw0 => simp only [preDdw0, Except.ok.injEq, Prod.mk.injEq] at h; obtain ⟨rfl, _⟩ := h; rfl
+  case errDdw0OrTdhIhw => simp only [preDdw0, Except.ok.injEq, Prod.mk.injEq] at h; obtain ⟨rfl, _⟩ := h; rfl
+  case errDwOrTdtCdw =>
+    split at h
+    · cases h
+    · rename_i t' m hp
+      simp only [Except.ok.injEq, Prod.mk.injEq] at h; obtain ⟨rfl, _⟩ := h; have := hpd _ _ _ hp; exact this
+  case tdt =>
+    unfold preTdt at h
+    simp only at h
+    split at h
+    · split at h
+      · cases h
+      · rename_i t' m hp
+        simp only [Except.ok.injEq, Prod.mk.injEq] at h; obtain ⟨rfl, _⟩ := h; have := hpf _ _ _ hp; exact this
+    · simp only [Except.ok.injEq, Prod.mk.injEq] at h; obtain ⟨rfl, _⟩ := h; rfl
+
+
+/-- the data-word branch of the validator emits exactly the codes of [C11]'s `dataWordCodes`
+    (the function `data_reported_iff` is about), each quoting the word at its offset -/
+theorem preData_codes (cfg : CheckCfg) (hst : cfg.stave = false) (s : CdpSt) (w i : Bytes)
+    (hi : s.ihw = some i) (hncdw : wordId w ≠ ID_CDW) :
+    preData cfg s w = .ok ({ s with startOfData := false },
+      (dataWordCodes cfg.running (ihwActiveLanes i) w).map (fun c => mkErr s c w)) := by
+  unfold preData dataWordCodes
+  have hne : (wordId w == ID_CDW) = false := by simpa using hncdw
+  simp only [hne, Bool.and_false, Bool.false_eq_true, ↓reduceIte, hi, hst, Bool.not_false]
+  by_cases hv : isValidDataId (wordId w) = true <;>
+  by_cases hr : cfg.running = true <;>
+  by_cases h1 : wordId w / 32 = 1 <;>
+  by_cases h2 : wordId w / 32 = 2 <;>
+  by_cases ha : laneActive (ibLane (wordId w)) (ihwActiveLanes i) = true <;>
+  by_cases hb : laneActive (obLane (wordId w)) (ihwActiveLanes i) = true <;>
+  by_cases hc : obConnectorInput (wordId w) > 6 <;>
+  simp [hv, hr, h1, h2, ha, hb, hc] <;> omega
+
+
+/-- the IHW governing a position of a payload: the last word before it that carries the IHW
+    identifier (in a page of the protocol grammar: the page's first word), else what was stored -/
+def governingIhw (init : Option Bytes) (pre : List Bytes) : Option Bytes :=
+  pre.foldl (fun acc w => if wordId w = ID_IHW then some w else acc) init
+
+/-- a word processed without any message is taken as IHW exactly when it carries the IHW identifier -/
+theorem quiet_ihw_class_iff (cfg : CheckCfg) (s : CdpSt) (o : Bytes) (hlen : o.length = 10) (s' : CdpSt)
+    (h : checkWord cfg s o = .ok (s', [])) :
+    ((fsmAdvance s.fsm o).2 = .ihw ∨ (fsmAdvance s.fsm o).2 = .ihwCont) ↔ wordId o = ID_IHW := by
+  constructor
+  · intro hc
+    have hq := quiet_class cfg s o hlen s' h
+    rcases hc with hc | hc <;> rw [hc] at hq <;> exact ihwSane_id o hq
+  · intro hid
+    have := quiet_status_class cfg s o hlen s' h .ihw hid
+    simpa [StatusKind.classes] using this
+
+theorem quiet_governing_ihw (cfg : CheckCfg) (pre : List Bytes) : ∀ (s sK : CdpSt),
+    (∀ w ∈ pre, w.length = 10) → checkWords cfg s pre = .ok (sK, []) → sK.ihw = governingIhw s.ihw pre := by
+  induction pre with
+  | nil =>
+    intro s sK _ h
+    simp only [checkWords, Except.ok.injEq, Prod.mk.injEq] at h
+    obtain ⟨rfl, _⟩ := h
+    rfl
+  | cons w ws ih =>
+    intro s sK hl h
+    simp only [checkWords] at h
+    cases h1 : checkWord cfg s w with
+    | error e => simp [h1] at h
+    | ok r1 =>
+      obtain ⟨s1, m1⟩ := r1
+      simp only [h1] at h
+      cases h2 : checkWords cfg s1 ws with
+      | error e => simp [h2] at h
+      | ok r2 =>
+        obtain ⟨s2, m2⟩ := r2
+        simp only [h2, Except.ok.injEq, Prod.mk.injEq] at h
+        obtain ⟨rfl, hm⟩ := h
+        obtain ⟨hm1, hm2⟩ := List.append_eq_nil_iff.mp hm
+        subst hm1; subst hm2
+        have hw := checkWord_ihw cfg s w s1 [] h1
+        have hiff := quiet_ihw_class_iff cfg s w (hl w (by simp)) s1 h1
+        rw [ih s1 s2 (fun x hx => hl x (by simp [hx])) h2, hw]
+        simp only [governingIhw, List.foldl_cons]
+        by_cases hid : wordId w = ID_IHW
+        · simp [hid, hiff.mpr hid]
+        · have : ¬ ((fsmAdvance s.fsm w).2 = .ihw ∨ (fsmAdvance s.fsm w).2 = .ihwCont) := fun hc => hid (hiff.mp hc)
+          simp [hid, this]
+
+/-- a data identifier processed without any message was taken as a data word, in a data-phase state -/
+theorem quiet_data_class (cfg : CheckCfg) (s : CdpSt) (o : Bytes) (hlen : o.length = 10) (s' : CdpSt)
+    (h : checkWord cfg s o = .ok (s', [])) (hid : isFsmDataId (wordId o) = true) :
+    (fsmAdvance s.fsm o).2 = .dataWord := by
+  have hq := quiet_class cfg s o hlen s' h
+  have hcdw : (fsmAdvance s.fsm o).2 = .cdw → wordId o = ID_CDW := class_cdw_id _ _ _ _
+  cases hcls : (fsmAdvance s.fsm o).2 <;> rw [hcls] at hq <;> simp only [] at hq
+  all_goals first
+    | rfl
+    | (have := ihwSane_id o hq; rw [this] at hid; simp [isFsmDataId, inRange, ID_IHW] at hid; done)
+    | (have := tdhSane_id o hq; rw [this] at hid; simp [isFsmDataId, inRange, ID_TDH] at hid; done)
+    | (have := tdtSane_id o hq; rw [this] at hid; simp [isFsmDataId, inRange, ID_TDT] at hid; done)
+    | (have := ddw0Sane_id o hq; rw [this] at hid; simp [isFsmDataId, inRange, ID_DDW0] at hid; done)
+    | (have := hcdw hcls; rw [this] at hid; simp [isFsmDataId, inRange, ID_CDW] at hid; done)
+    | exact hq.elim
+
+/-- in a state where one data identifier is taken as a data word, every data identifier is -/
+theorem data_class_any_id (st : FsmSt) (id id' : Nat) (nd pd nd' pd' : Bool)
+    (h : (fsmStep st id nd pd).2 = .dataWord) (hid' : isFsmDataId id' = true) :
+    (fsmStep st id' nd' pd').2 = .dataWord := by
+  cases st <;> simp only [fsmStep] at h ⊢ <;> first | (simp_all; done) | (exfalso; by_cases a : (id == ID_TDH) = true <;> by_cases b : nd = true <;> by_cases c : (id == ID_IHW) = true <;> by_cases d : (id == ID_DDW0) = true <;> simp [a, b, c, d] at h)
+
+
+/-- **a data word at any depth of a payload.**  Same setting as `status_fault_at_any_depth`, with
+    the stateful checks on (`check all`): where a conforming packet has a data word `o`, put any
+    word `w` carrying a data identifier of the state machine's ranges. Then *exactly* the codes that
+    [C11]'s `dataWordCodes` assigns to `w` under the governing IHW — [E70] invalid identifier,
+    [E71]/[E72] lane not active, [E73] connector input 7; by `C11.data_reported_iff` none iff `w`
+    satisfies the documented data-word rule — are reported at the word's offset, quoting `w` -/
+theorem data_fault_at_any_depth (cfg : CheckCfg) (hits : cfg.itsChecks = true) (hst : cfg.stave = false)
+    (htp : cfg.triggerPeriod = none) (hver : cfg.customRdhVersion = none)
+    (id0 : Nat) (xs : List PktSpec) (x0 : PktSpec) (done' : List Rdh) (st' : LSt)
+    (hc : ConformingLinkTo cfg id0 [] {} (xs ++ [x0]) done' st')
+    (pre : List Bytes) (o : Bytes) (post : List Bytes) (hw0 : x0.pl.words = pre ++ o :: post)
+    (p : Packet) (hoff : p.offset = x0.offset) (hrdh : p.rdh = decodeRdh x0.hdr)
+    (w : Bytes) (post' : List Bytes)
+    (hne : p.payload.isEmpty = false) (hcut : cutPayload p.payload = some (pre ++ w :: post'))
+    (hido : isFsmDataId (wordId o) = true) (hidw : isFsmDataId (wordId w) = true)
+    (i : Bytes) (hgov : governingIhw none pre = some i)
+    (sf : LinkSt) (ms : List Msg)
+    (h : linkRun cfg (LinkSt.init cfg) (xs.map PktSpec.packet ++ [p]) = .ok (sf, ms)) :
+    ∀ code ∈ dataWordCodes cfg.running (ihwActiveLanes i) w,
+      Msg.error { offset := p.offset + 64 + pre.length * C07.slotOf p.rdh, code := code, word := some w } ∈ ms := by
+  obtain ⟨d1, g1, hcx, hc0⟩ := conformingLinkTo_append cfg id0 xs [x0] [] {} done' st' hc
+  obtain ⟨s1, hrun, hinv, hrel⟩ := conforming_its_run_to cfg hits hst htp id0 xs [] (LinkSt.init cfg) {} d1 g1
+    ⟨by simp [LinkSt.init, hver], fun _ => C10.init_inv⟩ ⟨Or.inl rfl, fun _ => rfl⟩ hcx
+  obtain ⟨h1, h2, h3, h4, h5, h6, _, g2, h8, _⟩ := hc0
+  obtain ⟨s2, hstep0, _, _⟩ := conforming_its_step cfg hits hst htp id0 d1 s1 g1 g2 hinv hrel x0 h1 h2 h3 h4 h5 h6 h8
+  have hwl := payload_words cfg.running _ g1 g2 x0.pl h8
+  have hcut0 : cutPayload x0.packet.payload = some (pre ++ o :: post) := by
+    have := cut_payload cfg.running _ g1 g2 x0.pl h8 x0.fmt0 x0.pad h6
+    rw [hw0] at this
+    simpa [PktSpec.packet, PktSpec.payloadBytes, hw0] using this
+  have holen : o.length = 10 := (hwl o (by simp [hw0])).1
+  have hprelen : ∀ a ∈ pre, a.length = 10 := fun a ha => (hwl a (by simp [hw0, ha])).1
+  have hne0 : x0.packet.payload.isEmpty = false := by
+    cases hpre : pre with
+    | nil => exact enc_nonempty x0 o post (by simp [hw0, hpre]) holen
+    | cons a as => exact enc_nonempty x0 a (as ++ o :: post) (by simp [hw0, hpre]) (hwl a (by simp [hw0, hpre])).1
+  obtain ⟨sB, mB, hB, hsubB⟩ := linkStep_words cfg hits hst s1 x0.packet _ hne0 hcut0 s2 [] hstep0
+  have hmB : mB = [] := by
+    cases mB with
+    | nil => rfl
+    | cons m _ => exact absurd (hsubB m (by simp)) (by simp)
+  subst hmB
+  obtain ⟨sK, mK, sW, mW, mR, hK, hO, _, hnil⟩ := checkWords_split cfg pre o post _ sB [] hB
+  obtain ⟨hmK, hmWR⟩ := List.append_eq_nil_iff.mp hnil.symm
+  obtain ⟨hmW, _⟩ := List.append_eq_nil_iff.mp hmWR
+  subst hmK; subst hmW
+  rw [linkRun_snoc cfg _ p _ s1 [] hrun] at h
+  cases hstep : linkStep cfg s1 p with
+  | error e => simp [hstep] at h
+  | ok r2 =>
+    obtain ⟨s2', m2⟩ := r2
+    simp only [hstep, List.nil_append, Except.ok.injEq, Prod.mk.injEq] at h
+    obtain ⟨_, rfl⟩ := h
+    obtain ⟨sB', mB', hB', hsub⟩ := linkStep_words cfg hits hst s1 p _ hne hcut s2' m2 hstep
+    obtain ⟨sK', mK', sW', mW', mR', hK', hW', _, hms⟩ := checkWords_split cfg pre w post' _ sB' mB' hB'
+    have hstart : startCdp s1.cdp p.offset p.rdh = startCdp s1.cdp x0.packet.offset x0.packet.rdh := by
+      simp [PktSpec.packet, hoff, hrdh]
+    rw [hstart, hK] at hK'
+    simp only [Except.ok.injEq, Prod.mk.injEq] at hK'
+    obtain ⟨rfl, _⟩ := hK'
+    -- the governing IHW is what the validator has stored
+    have hihw : sK.ihw = some i := by
+      have := quiet_governing_ihw cfg pre _ sK hprelen hK
+      -- the stored IHW before the packet is overwritten by the IHW found in `pre`
+      have hfold : ∀ (l : List Bytes) (a b : Option Bytes), governingIhw a l = some i → governingIhw none l = some i →
+          governingIhw b l = some i := by
+        intro l
+        induction l with
+        | nil => intro a b _ h2; simp [governingIhw] at h2
+        | cons x l ihl =>
+          intro a b h1 h2
+          simp only [governingIhw, List.foldl_cons] at h1 h2 ⊢
+          by_cases hx : wordId x = ID_IHW
+          · simp only [hx, ↓reduceIte] at h2 ⊢; exact h2
+          · simp only [hx, ↓reduceIte] at h1 h2 ⊢; exact ihl _ _ h2 h2
+      rw [this]; exact hfold pre none _ hgov hgov
+    -- the original data word was taken as a data word, hence so is `w`
+    have hcls0 := quiet_data_class cfg sK o holen sW hO hido
+    have hcls : (fsmAdvance sK.fsm w).2 = .dataWord := data_class_any_id _ _ _ _ _ _ _ hcls0 hidw
+    have hncdw : wordId w ≠ ID_CDW := by
+      intro hcd; rw [hcd] at hidw; simp [isFsmDataId, inRange, ID_CDW] at hidw
+    rcases hadv : fsmAdvance sK.fsm w with ⟨stw, cls⟩
+    rw [hadv] at hcls
+    simp only at hcls; subst hcls
+    simp only [checkWord, hadv] at hW'
+    rw [preData_codes cfg hst _ w i (by exact hihw) hncdw] at hW'
+    simp only [Except.ok.injEq, Prod.mk.injEq] at hW'
+    obtain ⟨_, rfl⟩ := hW'
+    obtain ⟨t1, t2, t3⟩ := checkWords_tracker cfg pre _ sK [] hK
+    intro code hcode
+    have hin := hsub (mkErr { sK with wordCount := sK.wordCount + 1, fsm := stw } code w)
+      (by rw [hms]; simp only [List.mem_append, List.mem_map]; exact Or.inr (Or.inl ⟨code, hcode, rfl⟩))
+    have hpos : ({ sK with wordCount := sK.wordCount + 1, fsm := stw } : CdpSt).wordPos = p.offset + 64 + pre.length * C07.slotOf p.rdh := by
+      simp only [CdpSt.wordPos, t1, t2, t3, startCdp, C07.slotOf, PktSpec.packet, hoff, hrdh]
+      simp
+    simpa [mkErr, hpos] using hin
+
+
+/-! ### non-vacuity of the any-depth theorems (kernel-evaluated) -/
+namespace ExDepth
+open C01.Ex
+/-- the TDT closing the first packet of `page0` sits at word index 5, behind IHW, TDH, CDW and two data words -/
+example : page0.words = [ihw, tdh, cdw, data, data] ++ tdtDone :: [C01.Ex.tdhNoData, tdhOpen, data, tdtOpen] := by decide
+example : wordId tdtDone = StatusKind.tdt.id := by decide
+example : governingIhw none [ihw, tdh, cdw, data, data] = some ihw := by decide
+/-- a TDT with the same identifier and packet_done bit but reserved bit 66 set violates the TDT rule -/
+def badTdt : Bytes := [0, 0, 0, 0, 0, 0, 0, 0, 5, 0xF0]
+example : wordId badTdt = wordId tdtDone ∧ tdhNoData badTdt = tdhNoData tdtDone ∧ tdtPacketDone badTdt = tdtPacketDone tdtDone := by decide
+example : ¬ StatusKind.tdt.Spec (leNat badTdt) := fun h => by
+  have := (C11.tdt_sane_iff badTdt (by decide)).mpr h
+  revert this; decide
+/-- a data word of lane 8 under an IHW with lanes 0..13 active is fine, lane 20 (id 0x54) is not -/
+example : dataWordCodes true (ihwActiveLanes ihw) [0, 0, 0, 0, 0, 0, 0, 0, 0, 0x54] = ["E71"] := by decide
+example : UnknownId 0x13 := by unfold UnknownId; decide
+end ExDepth
+
 end C02
 end FastPasta
